@@ -174,6 +174,7 @@ func C08(run *hx.Run) {
 		}()
 	}
 	wg.Wait()
+	c08TransientFault(run, dir)
 	nConc := 6
 	if run.Thorough() {
 		nConc = 60
@@ -239,7 +240,10 @@ func c08History(run *hx.Run, o *hx.Oracle, dir string, h int, steps int) {
 	for step := 1; step <= steps; step++ {
 		version++
 		var w c08Write
-		switch k := rng.Intn(14); k {
+		switch k := rng.Intn(15); k {
+		case 13:
+			nps := []int{512, 1024, 2048, 4096, 8192}[rng.Intn(5)]
+			w = c08Write{"vacuum-new-page-size", []string{fmt.Sprintf("PRAGMA page_size=%d", nps), "VACUUM"}}
 		case 0:
 			w = c08Write{"insert", []string{fmt.Sprintf("INSERT INTO t(v, ver, pad) VALUES(%d, %d, 'ins')", rng.Intn(1000), version)}}
 		case 1:
@@ -305,6 +309,22 @@ func c08History(run *hx.Run, o *hx.Oracle, dir string, h int, steps int) {
 		}
 		hist = append(hist, fmt.Sprintf("v%d:%s", version, w.kind))
 		run.See("write_kind", w.kind)
+		// sometimes the very first call after the commit is Columns() / a low-level schema call
+		if rng.Intn(2) == 0 {
+			wantCols, err := o.Query(path, "SELECT name FROM pragma_table_info('t') ORDER BY cid")
+			if err == nil {
+				cs, cerr := db.Columns("t")
+				var wc []string
+				for _, r := range wantCols {
+					wc = append(wc, r[0].(string))
+				}
+				run.Eval(1)
+				if cerr != nil || strings.Join(cs, "\x00") != strings.Join(wc, "\x00") {
+					fail("stale/Columns-first-call", fmt.Sprintf("Columns(t) as the first call after the commit = %v (%v), SQLite has %v", cs, cerr, wc), step)
+					return
+				}
+			}
+		}
 		// every read twice: first from the file, then (mostly) from the cache
 		for pass := 0; pass < 2; pass++ {
 			key, what, n := compareWholeDB(o, path, db, low, dropped)
@@ -505,5 +525,87 @@ func c08Concurrent(run *hx.Run, dir string, idx int) {
 	}
 	if idx == 0 {
 		run.Sample(hx.M{"concurrent_history": idx, "operations": len(hist), "reads": reads, "versions_seen": len(seen), "result": string(res)})
+	}
+}
+
+
+// c08TransientFault: the first access of a new read transaction fails (one-shot
+// read fault on the header read); later accesses in the SAME transaction must
+// still reflect the latest commit (or fail), never the state remembered from
+// before the commit.
+func c08TransientFault(run *hx.Run, dir string) {
+	o := mustOracle(run)
+	if o == nil {
+		return
+	}
+	defer o.Close()
+	for ci, ps := range []int{512, 4096} {
+		path := filepath.Join(dir, fmt.Sprintf("tf%d.sqlite", ci))
+		if err := makeVersionedDB(o, path, ps, 80); err != nil {
+			run.Inconclusive("transient-fault db: " + err.Error())
+			return
+		}
+		before, _ := os.ReadFile(path)
+		if err := o.Exec(path, "UPDATE t SET ver=1, pad='changed'", "UPDATE meta SET version=1", "CREATE TABLE added(x)"); err != nil {
+			run.Inconclusive("transient-fault write: " + err.Error())
+			return
+		}
+		after, _ := os.ReadFile(path)
+		for _, faultOn := range []int64{1, 2} {
+			pg := hx.NewMemPager(append([]byte{}, before...))
+			h, err := openMem(pg)
+			if err != nil {
+				continue
+			}
+			// transaction 1: populate header, schema and page caches from the old state
+			scan := func() (vers map[int64]int, tables int, err error) {
+				vers = map[int64]int{}
+				ts, err := h.low.Tables()
+				if err != nil {
+					return vers, 0, err
+				}
+				t, err := h.low.Table("t")
+				if err != nil {
+					return vers, len(ts), err
+				}
+				err = t.Scan(func(_ int64, rec sdb.Record) bool {
+					if len(rec) > 2 {
+						if v, ok := rec[2].(int64); ok {
+							vers[v]++
+						}
+					}
+					return false
+				})
+				return vers, len(ts), err
+			}
+			h.low.RLock()
+			v0, nt0, err := scan()
+			h.low.RUnlock()
+			if err != nil || v0[0] == 0 {
+				run.Inconclusive("transient-fault: first transaction failed")
+				continue
+			}
+			// another connection commits; our next header read fails once
+			pg.Data = append([]byte{}, after...)
+			pg.FaultAt = pg.Reads + faultOn
+			h.low.RLock()
+			_, _, e1 := scan()
+			v2, nt2, e2 := scan()
+			h.low.RUnlock()
+			run.Eval(1)
+			run.DistinctN(1)
+			if !pg.FaultFired {
+				run.Count("transient_fault_not_reached", 1)
+				continue
+			}
+			if e1 == nil {
+				run.Count("transient_fault_first_access_survived", 1)
+			}
+			if e2 == nil && (v2[0] > 0 || nt2 == nt0) {
+				run.Violation("C08/stale/after-failed-first-access", fmt.Sprintf("page size %d: the first access of a new read transaction failed (%v); the next access in the same transaction then returned the state from BEFORE the last commit (row versions %v, %d tables; committed state has version 1 and %d tables)", ps, e1, v2, nt2, nt0+1), nil)
+			} else {
+				run.Count("transient_fault_cases_ok", 1)
+			}
+		}
 	}
 }
